@@ -983,11 +983,25 @@ def psi4_mode_error(n, l0, m0, lmax, radius, center, amp, method="linear"):
     f = amp * oracle_sYlm(-2, l0, m0, th, ph) * (r / radius) ** 2
     rel.data["Weyl_Psi4r"] = np.real(f).copy()
     rel.data["Weyl_Psi4i"] = np.imag(f).copy()
+    grid0 = [np.array(getattr(fd, k), copy=True) for k in ("xarray", "yarray", "zarray", "x", "y", "z")]
     out = rel["Psi4_lm"]
     if list(out.keys()) != [radius]:
         return float("inf"), {}
     a = out[radius]
     err = max(abs(a[k] - (amp if k == (l0, m0) else 0)) for k in a)
+    # a second snapshot on the SAME grid object (what over_time does: one FiniteDifference, one AurelCore per step):
+    # the extraction may not have touched the grid, and must return the same modes again
+    for k, g0 in zip(("xarray", "yarray", "zarray", "x", "y", "z"), grid0):
+        if not np.array_equal(getattr(fd, k), g0):
+            return float("inf"), {"grid-modified": k}
+    rel2 = aurel.AurelCore(fd, verbose=False, lmax=lmax, extract_radii=[radius], interp_method=method, center=center)
+    rel2.data["Weyl_Psi4r"] = np.real(f).copy()
+    rel2.data["Weyl_Psi4i"] = np.imag(f).copy()
+    try:
+        b = rel2["Psi4_lm"][radius]
+        err = max(err, max(abs(b[k] - a[k]) for k in a) * 1e6 if max(abs(b[k] - a[k]) for k in a) > 1e-13 else err)
+    except Exception:  # noqa
+        return float("inf"), {"second-extraction-raised": True}
     return float(err), a
 
 
